@@ -131,7 +131,7 @@ func flip(b []byte, i int) []byte {
 }
 
 var c06Main = newPart("C06", "main",
-	"rapid: C05 suites/secrets/inputs plus invalid suites (unusable configurations, zero RawSuite), inadmissible inputs (one selected field at a wrong length) and undecodable secrets; submitted strings: the generated code, single-character edits, truncations/extensions, the code for counter+1 / an edited challenge / timestamp+1 / a sibling suite (other digits or hash), the code of the same input in another ENCODING (decimal question vs. its RFC conversion, hex text vs. the bytes it spells), arbitrary strings, and the string the library returned for a neighbouring input submitted as returned (not a copy); oracle: GenerateOCRA on the same arguments (equivalence: ok == (x == g) when generation succeeds, (false, error) when it fails; accept => nil error, reject => error); non-trivial = rejected string sharing >= 1 leading character with the generated code, or a generation-fails case",
+	"rapid: C05 suites/secrets/inputs plus invalid suites (unusable configurations, zero RawSuite), inadmissible inputs (one selected field at a wrong length) and undecodable secrets; submitted strings: the generated code, single-character edits, truncations/extensions, the code for counter+1 / an edited challenge / timestamp+1 / a sibling suite (other digits or hash), the code of the same input in another ENCODING (decimal question vs. its RFC conversion, hex text vs. the bytes it spells), arbitrary strings, the string the library returned for a neighbouring input submitted as returned (not a copy), and in every generating case the modular aliases of the generated code (value +- 2^31 / 2^32 / 2^63 / 2^64 modulo 10^digits, each to be refused); oracle: GenerateOCRA on the same arguments (equivalence: ok == (x == g) when generation succeeds, (false, error) when it fails; accept => nil error, reject => error); non-trivial = rejected string sharing >= 1 leading character with the generated code, or a generation-fails case",
 	checkC06)
 
 func genC06(t *rapid.T) c06Case {
